@@ -22,6 +22,11 @@ METAS = {
     "rr_conc_n2": rc(2), "rr_conc_n3": rc(3),
     "ch_eq_n1": ch(1), "ch_eq_n2": ch(2), "ch_eq_n3": ch(3), "ch_eq_n4": ch(4),
     "retry_ok_a1": rt(1), "retry_ok_a3": rt(3), "retry_ok_a5": rt(5),
+    # thorough tier
+    "rr_seq_n5_deep": dict(rr(5, 16), thorough_only=True), "rr_seq_n6_deep": dict(rr(6, 16), thorough_only=True),
+    "rr_conc_n4_deep": dict(rc(4), thorough_only=True),
+    "ch_eq_n5_deep": dict(ch(5), thorough_only=True), "ch_eq_n6_deep": dict(ch(6), thorough_only=True),
+    "retry_ok_a7_deep": dict(rt(7), thorough_only=True),
 }
 STATIC = {
     "coverage": {
@@ -49,6 +54,8 @@ STATIC = {
 def main(tier):
     t0 = time.time()
     with Scratch(PID) as s:
-        recs, viol, known, inc, wall = kprop.decide(PID, tier, s, CRATE, METAS, timeout_s=1500 if tier == "quick" else 3600)
+        metas = {k: v for k, v in METAS.items() if tier == "thorough" or not v.get("thorough_only")}
+        recs, viol, known, inc, wall = kprop.decide(PID, tier, s, CRATE, metas, timeout_s=1500 if tier == "quick" else 7200,
+                                                    harness_timeout=900 if tier == "quick" else 3600, jobs=8)
         return kprop.finish(PID, tier, t0, recs, viol, known, inc, STATIC,
                             {"source_digest": s.src_digest, "kani_wall_s": round(wall, 1)})
